@@ -139,7 +139,7 @@ func replaceParam(p string) string {
 func genBulk(r *Rng, tier string, n int, emit func(string)) {
 	sizes := []int{13000, 5000, 1500, 9000}
 	if tier == "thorough" {
-		sizes = append(sizes, 20000, 30000)
+		sizes = append(sizes, 17000)
 	}
 	k := 0
 	for k < n {
